@@ -80,6 +80,66 @@ def loops(chk, runner, tier):
         chk.counters.setdefault('loop_max_values', {})[name] = mon.get('max_values')
 
 
+def scheduled(chk, runner, tier, avoid):
+    """three hostile programs as concurrently scheduled scripts (main + two spawned) under short slice budgets: the partition
+    monitor keeps one shadow per script, so a script's operands must be exactly as it left them when it gets its next slice"""
+    n = 500 if tier == 'quick' else 12000
+    items, meta = [], []
+    for i in range(n):
+        rng = core.rng('c05s', i)
+        progs = []
+        for k in range(3):
+            g = m.GenHostile(rng, max_depth=3, max_stmts=rng.choice([6, 10, 16]), avoid=avoid)
+            progs.append(g.program())
+        tags = ['A', 'B', 'C']
+        srcs = [m.emit_program(p).replace('diag_log str [', 'diag_log str ["%s", ' % t) for p, t in zip(progs, tags)]
+        src = '[] spawn {\n%s\n};\n[] spawn {\n%s\n};\n%s\n' % (srcs[1], srcs[2], srcs[0])
+        budget = rng.choice([1, 2, 3, 5, 8, 13, 40, 150])
+        items.append([{'op': 'vm', 'vm': 0, 'max_runtime_ms': 4000, 'mon': {'stack': True, 'budget': budget}},
+                      {'op': 'run', 'vm': 0, 'src': src, 'path': '/vh/prog.sqf', 'reset_ts': True, 'mon': True}])
+        meta.append((progs, tags, src, budget))
+    results = core.run_items(runner, [], items, batch=10, base_cpu_ms=5000, item_cpu_ms=lambda it: 3000, counters=chk.counters)
+    for i, ((progs, tags, src, budget), r) in enumerate(zip(meta, results)):
+        chk.evaluations += 1
+        chk.count('scheduled_programs')
+        chk.sig('sched|%d|%d' % (budget, len(src) // 200))
+        label = 'scheduled program #%d (slice budget %d)' % (i, budget)
+        if isinstance(r, core.Death):
+            chk.death_is_violation(r, label, {'src': src})
+            continue
+        st = r[-1]
+        if 'exc' in st:
+            chk.violation('escaped-exception', 'C++ exception escaped in %s: %s' % (label, st['exc']), {'src': src})
+            continue
+        viol, mon = mon_viol(st)
+        chk.count('hooked_instructions', mon.get('instr', 0))
+        chk.count('stack_checks', mon.get('stack_checks', 0))
+        chk.count('slices', mon.get('slices', 0))
+        for v in viol:
+            kind = v.split(' ')[0]
+            chk.violation('sched-monitor-' + kind, 'operand-stack monitor: %s in %s' % (v, label), {'src': src, 'monitor': viol, 'budget': budget})
+        trace, errs = c02.observe(st)
+        declined = False
+        for p, t in zip(progs, tags):
+            it = m.Interp()
+            try:
+                it.run_script(p)
+            except (m.ModelDeclines, RecursionError, TypeError, ValueError, IndexError):
+                declined = True
+                break
+            want = ['["%s",%s' % (t, e[1][1:]) for e in it.trace]
+            got = [x for x in trace if x.startswith('["%s",' % t)]
+            if got != want and not errs:
+                k = next((j for j in range(min(len(got), len(want))) if got[j] != want[j]), min(len(got), len(want)))
+                chk.violation('sched-trace|' + t, 'script %s of %s: trace differs from its solo reference at event %d: expected %s, observed %s' % (
+                    t, label, k, want[k] if k < len(want) else '<end>', got[k] if k < len(got) else '<end>'), {'src': src, 'budget': budget, 'script': t})
+                break
+        if declined:
+            chk.inconclusive += 1
+        elif errs:
+            chk.violation('sched-unexpected-error', 'error-free scripts raised %s in %s' % (errs[0][2][:200], label), {'src': src, 'budget': budget})
+
+
 def probes(chk, runner):
     for e in chk.findings.open + chk.findings.fixed:
         src = e.get('probe')
@@ -115,6 +175,7 @@ def main(tier):
     items = [[{'op': 'run', 'vm': 0, 'src': m.emit_program(p), 'path': '/vh/prog.sqf', 'reset_ts': True, 'mon': True}] for p, g in progs]
     probes(chk, runner)
     loops(chk, runner, tier)
+    scheduled(chk, runner, tier, avoid)
     prefix = [{'op': 'vm', 'vm': 0, 'max_runtime_ms': 4000, 'auto_renew': True, 'mon': {'stack': True}}]
     results = core.run_items(runner, prefix, items, batch=20, base_cpu_ms=5000, item_cpu_ms=lambda it: 3000, counters=chk.counters)
     feats = set()
